@@ -190,6 +190,13 @@ def make_layers(case, dg):
     return out
 
 
+def cell_layer_scale(name, m):
+    """magnitude against which rounding of a layer's per-cell values is judged (projections can cancel to ~0)"""
+    if name in ("vec", "vecnorm"):
+        return np.sqrt(np.sum(m.vec[:, : m.d] ** 2, axis=1))
+    return np.abs(m.scalar1 if name == "scalar1" else m.scalar2)
+
+
 def cell_layer_values(name, m, u, v):
     """expected per-cell value(s) of a layer: scalar [n] or [n,3] for mode vec"""
     if name == "scalar1":
@@ -325,8 +332,9 @@ def thin_map(case, r):
                   f"{su['ratio']:.3g}; {int((inside & pm).sum())} such pixels of {nx * ny}")
             return
         want = cv[np.where(inside, idx, 0)]
+        cscale = cell_layer_scale(name, m)
         if isvec:
-            mag = np.abs(want).max(axis=2, keepdims=True)           # rotated components may cancel to ~0
+            mag = cscale[np.where(inside, idx, 0)][..., None]        # rotated components may cancel to ~0
             diff = (np.abs(vals - want) > 1e-9 * (mag + 1e-300)).any(axis=2)
         else:
             diff = np.abs(vals - want) > 1e-9 * (np.abs(want) + 1e-300)
@@ -347,7 +355,7 @@ def thin_map(case, r):
         for j, i in np.argwhere(amb):
             cands = cv[touch[j, i]]
             got = vals[j, i]
-            okc = np.any(np.all(np.abs(cands - got) <= 1e-9 * (np.abs(cands).max(axis=1, keepdims=True) + 1e-300), axis=1)) \
+            okc = np.any(np.all(np.abs(cands - got) <= 1e-9 * (cscale[touch[j, i]][:, None] + 1e-300), axis=1)) \
                 if isvec else np.any(np.abs(cands - got) <= 1e-9 * (np.abs(cands) + 1e-300))
             if not okc:
                 r.bad(["face-pixel-foreign-value", name], f"pixel (j={j}, i={i}) on a cell face shows {got!r}, touching cells have "
